@@ -56,6 +56,11 @@ CLAIMED = {
  "C06": dict(ref="5 C06", technique="Rocq/Coq proof over the extracted chain + one correspondence stream per violated condition",
    text="C06_accept_implies holds for every chain containing the six validation steps and all inputs; C06_window characterises the validity window incl. the boundary now = instant that "
         "tests cannot hit. Decoding is an oracle (codec: C18). The Go oracle re-evaluates the conditions on the submitted bytes with a generic strict XML walk."),
+ "C07": dict(ref="5 C07", technique="Rocq/Coq proof of acceptance (liveness) for the three endpoint models by symbolic execution of the extracted chains + refutation witnesses for the wire glue + conformance-generator correspondence",
+   text="C07_authn_accepts / _logout_accepts / _attrquery_accepts: every request meeting the spelled-out conditions is accepted, for all inputs and storage answers; C07_redirect_octets_canonical / _refuted and "
+        "C07_attrquery_signed_refuted model the glue that loses conformant requests (known findings F-07a, F-07e; F-07b fixed). Tie: generator over binding x signing x percent-encoding style x requirement (full grid) and random "
+        "serialisation / optional-part / precision / KeyInfo / certificate-wrapping choices; every AuthnRequest also runs through the Coq SSO model; logout and attribute-query conformance by oracle. 'Conformant' is the generator's "
+        "reading of the SAML bindings, not a schema validator."),
  "C08": dict(ref="5 C08", technique="Rocq/Coq proof over the checker chain extracted by go2v (facts mode) + in-Coq model/implementation correspondence",
    text="C08_one_outcome / C08_no_panic hold for every chain satisfying decidable wf8 / wf_order and for all requests, metadata and storage answers; "
         "wf8 sso_steps = true is re-proved by vm_compute on the chain go2v extracts from sso.go on every run. The model is run inside Coq on the abstract inputs of "
